@@ -40,6 +40,8 @@ def run(ctx: Ctx):
     model = ctx.model
     from .common_node import names_resolve
     names_resolve(ctx, "C18-RN")
+    from .common_node import taken_socket_is_closed
+    taken_socket_is_closed(ctx, "C18-R10")
     from .recvmsg import received_messages_reach_dispatch
     received_messages_reach_dispatch(ctx, "C18-R9d", answers=True, requests=False)
     nc = model.cls("node.node", "Node")
@@ -124,7 +126,17 @@ def run(ctx: Ctx):
                         or (f_[1] == "==" and f_[2] in (CONNECTING_, CONNECTED_))) for f_ in fx) \
                         or any(f_[0] == f"{cv_}.state" and f_[1] == "in" and f_[3] is False
                                and set(f_[2] if isinstance(f_[2], (set, frozenset, tuple, list)) else ()) >= set(READY) for f_ in fx):
-                    closes_u.append(n)
+                    closes_u.append((n, [x for x in fx if x[0] not in (f"{cv_}.state", force, "self._started",
+                                                                       "self._stopping")]))
+    if closes_u and all(extra_ for _, extra_ in closes_u):
+        n_, extra_ = closes_u[0]
+        ctx.fail(cons_u + "#extra", g.loc(n_), f"the connections that have not completed their "
+                 f"capabilities exchange are only closed under {extra_}: one the condition leaves out "
+                 f"(a dialled connection waiting for its CEA is in no half-ready table) survives the "
+                 f"start of the shutdown, is taken into service by a late CEA without ever getting a "
+                 f"DPR, and stop() waits its whole timeout",
+                 expected="closed on the word of conn.state alone", observed=str(extra_))
+    closes_u = [n for n, _ in closes_u]
     if not closes_u:
         ctx.fail(cons_u, f.loc(), "stop() sends DPRs to the ready connections and leaves those that are "
                  "still connecting or waiting for their CER/CEA alone: they complete the exchange "
@@ -427,14 +439,50 @@ def run(ctx: Ctx):
         ww = pcx.methods.get("work_write_queue")
         gw = cfg_of(ww, exc_everywhere=True)
         gets = [x for x in gw.nodes if x.kind == "stmt" and any(
-            A.call_name(c).endswith("_write_msg_queue.get") for c in x.calls())]
+            A.call_name(c).endswith(("_write_msg_queue.get", "_write_msg_queue.get_nowait")) for c in x.calls())]
         dones = [x for x in gw.nodes if any(A.call_name(c).endswith("_write_msg_queue.task_done") for c in x.calls())]
         cons = "work_write_queue:task_done-after-every-message"
         ctx.inst(cons)
+        def batch_ok(gt):
+            """a site that collects several messages (`L.append(queue.get_nowait())` in a loop) is
+            followed, before the writer goes for the next blocking get, by `for m in L:` whose every
+            turn counts one message as done"""
+            st = gt.ast
+            call = st.value if isinstance(st, ast.Expr) else None
+            lst = None
+            if isinstance(call, ast.Call) and isinstance(call.func, ast.Attribute) \
+                    and call.func.attr == "append" and isinstance(call.func.value, ast.Name):
+                lst = call.func.value.id
+            elif isinstance(st, (ast.Assign, ast.AnnAssign)):
+                # `m = queue.get(...)` followed by `batch = [m]`
+                tg = st.targets[0] if isinstance(st, ast.Assign) else st.target
+                if isinstance(tg, ast.Name):
+                    for x in ast.walk(ww.node):
+                        if isinstance(x, (ast.Assign, ast.AnnAssign)) and isinstance(getattr(x, "value", None), ast.List) \
+                                and any(isinstance(e, ast.Name) and e.id == tg.id for e in x.value.elts):
+                            t2 = x.targets[0] if isinstance(x, ast.Assign) else x.target
+                            if isinstance(t2, ast.Name):
+                                lst = t2.id
+            if lst is None:
+                return False
+            its = [x for x in gw.nodes if x.kind == "iter" and ast.unparse(x.ast.iter) == lst]
+            if not its:
+                return False
+            it = its[0]
+            body = [d for l, d in it.succ if l == "iter"]
+            turn = gw.reach(body, normal_blocked=dones, blocked=[])
+            if it in turn:
+                return False          # a turn of the per-message loop without task_done()
+            # the next message that is waited for (the assignment form, `m = queue.get(...)`) is not
+            # reached around the per-message loop; the collecting site may repeat
+            waits = [x for x in gets if isinstance(x.ast, (ast.Assign, ast.AnnAssign))]
+            around = gw.reach([d for l, d in gt.succ if l not in ("exc", "raise")], blocked=[it],
+                              include_starts=False)
+            return gw.exit not in around and not any(o in around for o in waits)
         for gt in gets:
             nxt = [d for l, d in gt.succ if l not in ("exc", "raise")]
             back = gw.reach(nxt, normal_blocked=dones)
-            if gt in back or gw.exit in back:
+            if (gt in back or gw.exit in back) and not batch_ok(gt):
                 ctx.fail(cons, gw.loc(gt), "after taking a message from the queue the writer can reach its "
                          "next iteration (or end) without task_done(): has_queued_messages stays true "
                          "for ever and a CLOSING connection is never closed before the wait timeout")
@@ -444,7 +492,7 @@ def run(ctx: Ctx):
         cons = "work_write_queue:wake-up-after-task_done"
         ctx.inst(cons)
         sigs = [x for x in gw.nodes if any(A.call_name(c) == "self.demand_attention" for c in x.calls())]
-        heads = [x for x in gw.nodes if x.kind == "loop"]
+        heads = [x for x in gw.nodes if x.kind in ("loop", "iter")]
         if not sigs:
             wake_fail(ctx, cons, ww.loc(), "the writer never wakes the node after appending a message")
         for sg in sigs:
